@@ -188,3 +188,17 @@ package dvid
 //@   prop C08
 //@   ensures b == nil ==> !result
 //@   ensures b != nil ==> result == outsideB(b, pt[0], pt[1], pt[2])
+
+// ---- block filing of points (C13, C17) ----
+
+//@ func IndexZYX.ToIZYXString
+//@   prop C13
+//@   requires i != nil
+//@   ensures len(result) == 12
+//@   ensures be32(result, 0) == zyx32(i[2]) && be32(result, 4) == zyx32(i[1]) && be32(result, 8) == zyx32(i[0])
+
+//@ func Point3d.ToBlockIZYXString
+//@   prop C13
+//@   requires size[0] > 0 && size[1] > 0 && size[2] > 0
+//@   ensures len(result) == 12
+//@   ensures be32(result, 0) == zyx32(fdiv(p[2], size[2])) && be32(result, 4) == zyx32(fdiv(p[1], size[1])) && be32(result, 8) == zyx32(fdiv(p[0], size[0]))
